@@ -271,6 +271,48 @@ def run(F, rep):
     if n_l < 10:
         raise AnalysisBroken('C13.L1: only %d id-list insertions found (13 confirmed)' % n_l)
 
+    rep.rule('C13.L2', 'where an index builder skips an id because "it has been recorded already", that verdict is about the very entity it is about to record: the flag that suppresses the insertion is raised only under a test that mentions '
+                       'that entity (or the entities it is made of); a test on the id and the kind of item alone merges two different entities that carry the same id, and the duplicate is then invisible')
+    from engines import enclosing_conditions as _enc13
+    n_l2 = 0
+    for g in F.funcs.values():
+        if not g.file.endswith('/annotator.cpp') or not g.name.startswith('list'):
+            continue
+        for c in g.walk():
+            if not (c.get('k') == 'Call' and c.get('mc') and c.get('fn') in ('insert', 'emplace') and render(receiver(c)) in ('idList', 'mIdList')):
+                continue
+            flags = {}
+            for cn, br, st in _enc13(g, c):
+                for x in walk(cn):
+                    if x.get('k') == 'Ref' and x.get('dk') == 'local' and x.get('t') == 'bool':
+                        flags[x['d']] = x['n']
+            if not flags:
+                continue
+            # the entities the recorded entry is made of: arguments of the set<Kind>() call on the entry in the same block
+            blk = g.parent(c)
+            while blk is not None and blk.get('k') != 'Compound':
+                blk = g.parent(blk)
+            ents = set()
+            for s_ in walk(blk or {}):
+                if s_.get('k') == 'Call' and s_.get('mc') and (s_.get('fn') or '').startswith('set') and 'entry' in render(s_['c'][0]):
+                    for a in s_['c'][1:]:
+                        for x in walk(a):
+                            if x.get('k') == 'Ref' and x.get('dk') in ('local', 'parm'):
+                                ents.add(x['d'])
+            for d, nm in flags.items():
+                n_l2 += 1
+                evid = [v['c'][0] for v in g.walk() if v.get('k') == 'Var' and v.get('d') == d and v.get('c')]
+                for a in g.walk():
+                    if a.get('k') == 'Bin' and a.get('op') == '=' and a['c'][0].get('k') == 'Ref' and a['c'][0].get('d') == d and not (a['c'][1].get('k') == 'Bool' and not a['c'][1].get('v')):
+                        evid.append(a['c'][1])
+                        evid += [cn for cn, br, st in _enc13(g, a)]
+                about = any(x.get('k') == 'Ref' and x.get('d') in ents for e in evid for x in walk(e))
+                rep.check(about or not ents, 'C13.L2', '%s|%s|%s' % (g.name, nm, render(c)[:40]), g.where(c),
+                          '%s suppresses the insertion when `%s` is set, but nothing that sets it looks at the entity being recorded: two different entities with the same id and kind are merged into one index entry' % (g.short, nm),
+                          'the already-recorded test mentions the entity being recorded')
+    if n_l2 < 2:
+        raise AnalysisBroken('C13.L2: only %d found-once flags guard id-list insertions (2 confirmed: mappings, connections)' % n_l2)
+
     rep.rule('C13.H1', 'the change-detection hash of the annotator is stored only where the index has just been rebuilt (AnnotatorImpl::update) or the model replaced: any other writer marks a hand-patched index as fresh')
     n_h = 0
     from engines import is_write_context as _iw
